@@ -948,6 +948,122 @@ def run_r11(ctx, rule):
         rule.check(seeded or excl, "lit_defs/constant-both-polarities/%s" % ("+".join(kind) or "insert@%d" % len([1 for b2, _ in others if b2 < bb])), "a definition (%s) is recorded only where the constant is refused in both polarities (%s)" % (", ".join(kind) or "?", "table seeded with literal 0 first" if seeded else "guarded by tests excluding codes 0 and 1" if excl else "neither a seeded table nor tests excluding both code 0 and code 1"), f.loc(bb))
 
 
+# ---- R12: OrderedAig -> Aig numbers the variables the way the ordered form means them ------------------------------
+def run_r12(ctx, rule):
+    """An `OrderedAig` (what renumbering returns and what the binary parser yields) has no literal names for inputs,
+    latches and gates: position means name - input i is literal 2(i+1), latch i is 2(i+1+I), gate i is 2(i+1+I+L).
+    `From<OrderedAig> for Aig` spells those names out.  Decided by affine execution of the conversion and of its three
+    closures: the code handed to `from_code` as a linear form over the element index, the input count and the number
+    of latches; every other field is handed over from the field of the same name."""
+    from .aff import PathExec, Aff
+    facts = ctx.facts
+    pid = [i for i in facts.fns if norm(i).endswith("core::convert::From<flussab_aiger::aig::OrderedAig<L>>>::from") and "closure" not in i]
+    if not pid:
+        rule.bad("from-ordered/missing", "anchor missing: From<OrderedAig<L>> for Aig<L>", kind="anchor-missing")
+        return
+    pf = facts.fns[pid[0]]
+    c = cfg(pf)
+    paths = [p for p, cut in c.paths(limit=50) if pf.term(p[-1])["k"] == "return"]
+    if len(paths) != 1:
+        rule.bad("from-ordered/paths", "the conversion is not a straight line (%d returning paths): unrecognised form" % len(paths), pf.loc(), kind="unmodelled-idiom")
+        return
+    ex = PathExec(facts, pf)
+    st = ex.run_path(paths[0])
+    # pass-through fields
+    ret = [e[2] for e in st.events if e[0] == "return"]
+    adt = facts.adts.get(AIG + "Aig")
+    names = [fl["name"] for fl in adt["variants"][0]["fields"]] if adt else []
+    if ret and isinstance(ret[0], tuple) and ret[0][0] == "agg" and len(ret[0][3]) == len(names):
+        for nm, v in zip(names, ret[0][3]):
+            if nm in ("inputs", "latches", "and_gates"):
+                continue
+            rule.check(v == Aff.sym("arg1." + nm), "from-ordered/field/%s" % nm, "Aig.%s is taken from OrderedAig.%s  [got %s]" % (nm, nm, v), pf.loc())
+    else:
+        rule.bad("from-ordered/aggregate", "the conversion does not build the Aig from explicit fields", pf.loc(), kind="unmodelled-idiom")
+    # symbols of the parent: the number of latches is a `len` call on arg1.latches
+    len_syms = {}
+    for e in st.events:
+        if e[0] == "call" and e[2][0].rsplit("::", 1)[-1] == "len" and e[2][1] and e[2][1][0] in (("ref", ("arg1", ("latches",))), ("ref", ("local1", ("latches",)))):
+            len_syms["call@%d" % e[1]] = "L"
+    def canon(a):
+        """linear form over I (input count), L (latches), i (element index)"""
+        if not isinstance(a, Aff):
+            return None
+        out = {"1": a.c}
+        for k, v in a.t.items():
+            if k == "arg1.input_count":
+                out["I"] = out.get("I", 0) + v
+            elif k in len_syms:
+                out["L"] = out.get("L", 0) + v
+            elif k == "i":
+                out["i"] = out.get("i", 0) + v
+            else:
+                return None
+        return {k: v for k, v in out.items() if v}
+    # closures and what they capture
+    want = {"inputs": {"i": 2, "1": 2}, "latches": {"i": 2, "I": 2, "1": 2}, "and_gates": {"i": 2, "I": 2, "L": 2, "1": 2}}
+    found = {}
+    for bi in paths[0]:
+        for s_ in pf.blocks[bi]["stmts"]:
+            if s_["k"] != "assign" or s_["rv"]["k"] != "agg" or not s_["rv"].get("closure"):
+                continue
+            cf = facts.fns.get(s_["rv"]["closure"])
+            if cf is None:
+                continue
+            caps = []
+            for o in s_["rv"]["ops"]:
+                v = ex.operand(st, o)
+                if isinstance(v, tuple) and v[0] == "ref":
+                    root, path = v[1]
+                    if isinstance(root, str) and root.startswith("local") and root[5:].isdigit() and not path:
+                        v = st.loc.get(int(root[5:]))
+                    else:
+                        v = st.mem.get(v[1])
+                caps.append(v)
+            cc = cfg(cf)
+            cps = [p for p, cut in cc.paths(limit=50) if cf.term(p[-1])["k"] == "return"]
+            if len(cps) != 1:
+                continue
+            cex = PathExec(facts, cf)
+            cst = cex.run_path(cps[0])
+            codes = [e[2][1][0] for e in cst.events if e[0] == "call" and e[2][0].endswith("Lit::from_code")]
+            if len(codes) != 1 or not isinstance(codes[0], Aff):
+                continue
+            a = codes[0]
+            mems = [k for k in a.t if k.startswith("mem?")]
+            idx = [k for k in a.t if k in ("arg2", "arg2.0")]
+            if len(mems) > 1 or len(mems) > len(caps) or (mems and not isinstance(caps[0], Aff)):
+                continue
+            lin = Aff(a.c, {})
+            for k, v in a.t.items():
+                if k in idx:
+                    lin = lin + Aff.sym("i").scale(v)
+                elif k in mems:
+                    lin = lin + caps[0].scale(v)
+                else:
+                    lin = lin + Aff.sym(k).scale(v)
+            # which section: the aggregate the closure returns (Latch / AndGate) or a bare literal (inputs)
+            r = [e[2] for e in cst.events if e[0] == "return"]
+            sec = "inputs"
+            extra_ok = True
+            if r and isinstance(r[0], tuple) and r[0][0] == "agg":
+                sec = {"Latch": "latches", "AndGate": "and_gates"}.get(r[0][2], "?")
+                fnames = [fl["name"] for fl in facts.adts[r[0][1]]["variants"][0]["fields"]] if r[0][1] in facts.adts else []
+                for nm, v in zip(fnames, r[0][3]):
+                    if nm in ("state", "output"):
+                        continue
+                    extra_ok = extra_ok and isinstance(v, Aff) and list(v.t) == ["arg2.1." + nm]
+            found[sec] = (canon(lin), lin, extra_ok, cf)
+    for sec, w in want.items():
+        if sec not in found:
+            rule.bad("from-ordered/%s/closure" % sec, "no numbering closure recognised for %s" % sec, pf.loc(), kind="unmodelled-idiom")
+            continue
+        got, lin, extra_ok, cf = found[sec]
+        rule.check(got == w, "from-ordered/%s/code" % sec, "%s element i gets the literal %s  [computed %s]" % (sec, " + ".join("%d*%s" % (v, k) if k != "1" else str(v) for k, v in sorted(w.items())), lin), cf.loc())
+        if sec != "inputs":
+            rule.check(extra_ok, "from-ordered/%s/fields" % sec, "the other fields of a %s are handed over from the fields of the same name" % sec[:-1], cf.loc())
+
+
 def run(ctx):
     r1 = ctx.rule("C12-R1", "the renumbering code is not recursive (explicit stack)", floor=2)
     run_r1(ctx, r1)
@@ -969,6 +1085,8 @@ def run(ctx):
     run_r10(ctx, r10)
     r11 = ctx.rule("C12-R11", "the constant cannot be redefined in either polarity: lit_defs records a definition only behind a table seeded with literal 0 (or tests excluding codes 0 and 1)", floor=2)
     run_r11(ctx, r11)
+    r12 = ctx.rule("C12-R12", "OrderedAig -> Aig spells out the positional names: input i = 2(i+1), latch i = 2(i+1+I), gate i = 2(i+1+I+L); every other field from the field of the same name", floor=12)
+    run_r12(ctx, r12)
     r6 = ctx.rule("C12-R6", "every constant fold is an identity of AND (each decision path checked over the six representative codes)", floor=5)
     run_r6(ctx, r6)
     ctx.assume("Boolean equivalence of the renumbered circuit as a whole, hash-consing and completeness of the cycle detection are value-level and NOT decided (the const-fold case analysis is decided by C12-R6)")
